@@ -179,6 +179,34 @@ def corpus():
                 if cs == "other" or cu in ("other", "member"):
                     st3 += [["ws", "B"], J("B", "pr"), S]
     out.append({"name": "spoof-matrix", "fixture": fixture(0, 0), "expect": expect_table(0, 0), "steps": st3 + [S]})
+    # permission edits on users that share a role: every ordered pair of edits on two different users, then both try to chat and a
+    # fresh user of the same role logs in
+    for (a1, a2) in (("shutup", "unpresent"), ("unpresent", "shutup"), ("unop", "shutup"), ("shutup", "unop")):
+        role = "op" if "unop" in (a1, a2) else "pr"
+        st4 = [["ws", "A"], J("A", "op"), S, ["ws", "B"], J("B", role), S, ["ws", "C"], J("C", role), S,
+               ["send", "A", {"type": "useraction", "kind": a1, "dest": "B"}], S,
+               ["send", "A", {"type": "useraction", "kind": a2, "dest": "C"}], S,
+               ["send", "B", {"type": "chat", "source": "B", "value": "from B", "id": "b1"}], S,
+               ["send", "C", {"type": "chat", "source": "C", "value": "from C", "id": "c1"}], S,
+               ["publish", "B", "sB", "camera", 1, 0], ["sleep", 200], S, ["publish", "C", "sC", "camera", 1, 0], ["sleep", 200], S,
+               ["ws", "D"], J("D", role), S, ["send", "D", {"type": "chat", "source": "D", "value": "from D", "id": "d1"}], S, S]
+        out.append({"name": "shared-role-%s-then-%s" % (a1, a2), "fixture": fixture(0, 0), "expect": expect_table(0, 0), "steps": st4})
+    # setdata: later updates, deletions, and late joiners must agree
+    SD = lambda c, v: ["send", c, {"type": "useraction", "kind": "setdata", "dest": c, "value": v}]
+    out.append({"name": "setdata-merge", "fixture": fixture(0, 0), "expect": expect_table(0, 0), "steps": [
+        ["ws", "A"], J("A", "pr"), S, ["ws", "B"], J("B", "ms"), S, SD("A", {"raisehand": True}), S, SD("A", {"mood": "happy"}), S,
+        ["ws", "C"], J("C", "ob"), S, SD("A", {"raisehand": None}), S, ["ws", "D"], J("D", "op"), S, SD("B", {"x": 1}), S, SD("B", {"y": [1, 2]}), S, S]})
+    # a token whose username is present but empty, presented without a username; a token without username
+    tk = lambda i, extra: json.dumps(dict({"token": i, "group": "g", "permissions": ["present"], "expires": "2099-01-01T00:00:00Z"}, **extra)) + "\n"
+    out.append({"name": "token-empty-username", "fixture": fixture(0, 0, extra_files={"data/var/tokens.jsonl": tk("tokE", {"username": ""}) + tk("tokN", {}) + tk("tokU", {"username": "tu"})}),
+                "expect": {}, "steps": [
+        ["ws", "A"], ["send", "A", {"type": "join", "kind": "join", "group": "g", "token": "tokE"}], S,
+        ["ws", "B"], ["send", "B", {"type": "join", "kind": "join", "group": "g", "token": "tokN"}], S,
+        ["ws", "C"], ["send", "C", {"type": "join", "kind": "join", "group": "g", "token": "tokU"}], S,
+        ["ws", "D"], ["send", "D", {"type": "join", "kind": "join", "group": "g", "token": "tokE", "username": "dd"}], S,
+        ["http", "bearerE", "GET", "/galene-api/v0/.groups/g", {"Authorization": "Bearer tokE"}, "", "", ""],
+        ["http", "bearerN", "GET", "/galene-api/v0/.stats", {"Authorization": "Bearer tokN"}, "", "", ""],
+        ["http", "bearerU", "GET", "/galene-api/v0/.groups/", {"Authorization": "Bearer tokU"}, "", "", ""], S, S]})
     # F11: an operator of h edits / lists a token of g
     tokfile = json.dumps({"token": "tokg1", "group": "g", "permissions": ["present"], "expires": "2099-01-01T00:00:00Z", "username": "tu"}) + "\n"
     out.append({"name": "F11-edittoken-cross-group", "fixture": fixture(0, 0, extra_files={"data/var/tokens.jsonl": tokfile}), "expect": expect_table(0, 0), "steps": [
